@@ -18,12 +18,19 @@ TRUSTED_BASE = [
     "tests, the reader's predicate_mapper + kind-dependent substring tests); coq/theories/Rdfq.v — the quad-level structure "
     "for relation records (binary triple, qualified node and what it carries, typed nodes, link from the subject, the fold of "
     "binary association/delegation triples as repaired). relation_mapper, predicate_mapper and every kind list the two "
-    "functions test membership in are generated from /repo on every run (the model follows the source). Elements, bundles "
-    "(named graphs), literal mapping and TriG are NOT modelled: they are decided by the direct round-trip oracle",
+    "functions test membership in are generated from /repo on every run (the model follows the source); "
+    "coq/theories/RdfVal.v — the literal mapping both ways (encode_rdf_representation, literal_rdf_representation, "
+    "decode_rdf_representation incl. what rdflib's lexical-to-Python conversion and prov's Literal.__init__ do to string, "
+    "int, boolean, anyURI literals), the predicate an attribute of an element travels under and the name the reader files it "
+    "under, then the record's insertion code. Bundles (named graphs), the assembly of elements and TriG are NOT modelled: "
+    "they are decided by the direct round-trip oracle",
     "tie: for every relation kind and attribute the model's predicate is compared with the predicate in the implementation's "
     "graph; for every document of the shape sweep the model's graph is compared with the implementation's up to blank-node "
     "renaming (rdflib.compare.isomorphic, literals as tokens) and the model's decoded relations with the implementation's",
-    "values are opaque tokens in Rdfq.v: the theorems quantify over the finite shape family, not over values (partial)",
+    "values are opaque tokens in Rdfq.v: the quad-level theorems quantify over the finite shape family, not over values "
+    "(partial); the value-level theorems (RdfValProofs.v) quantify over all strings, integers, booleans, valid datetimes, "
+    "URIs, qualified names, language-tagged strings and foreign literals, under the oracle law that rdflib hands back the "
+    "term it was given (measured per run: the term in the parsed graph is compared with the model's)",
     "rdflib (TriG writer/parser, literal <-> Python value mapping, compute_qname, store iteration order) is trusted; the "
     "oracle re-runs the decoder on shuffled quad orders",
 ]
@@ -323,6 +330,119 @@ def predicate_correspondence():
     return len(cases), bad
 
 
+def value_correspondence():
+    """model RdfVal (rdf_encode, enc_elem_pred, rdf_decode, dec_elem_name + insertion) vs the implementation: one
+    attribute of an entity, for every attribute name of interest x every value of the claimed kinds (and Literal
+    objects with foreign datatypes): the predicate and the term in the graph written, and the (name, value) read back"""
+    import datetime
+    import prov.model as M
+    from harness import impl as I
+    from prov.identifier import Identifier, Namespace
+    from rdflib import ConjunctiveGraph, URIRef, Literal
+    EXU, ZZU = "http://example.org/", "http://zz.test/ns#"
+    EX, ZZ = Namespace("ex", EXU), Namespace("zz", ZZU)
+    tz = datetime.timezone
+    names = [EX["k"], ZZ["size"], EX["x/y"], M.PROV["type"], M.PROV["label"], M.PROV["location"], M.PROV["value"],
+             M.PROV["role"], EX["k/" + EXU + "again"]]
+    values = ["", "plain", "two\nlines", 'quo"te', "ünï \U0001F600", "1", "true", "ex:e", "http://example.org/e",
+              0, 1, -7, 2 ** 31, 10 ** 40, True, False,
+              datetime.datetime(2012, 3, 31, 9, 21), datetime.datetime(2012, 3, 31, 9, 21, 0, 5, tzinfo=tz.utc),
+              datetime.datetime(1999, 12, 31, 23, 59, 59, 999999, tzinfo=tz(datetime.timedelta(minutes=330))),
+              datetime.datetime(2024, 2, 29, 0, 0, tzinfo=tz(datetime.timedelta(minutes=-480))),
+              Identifier("http://u/x"), Identifier("urn:a:b"), Identifier(EXU + "e"), Identifier("x y"),
+              EX["e"], ZZ["T"], EX["x/y"], M.PROV["Person"], M.PROV["Plan"], M.XSD["int"], EX["a/" + EXU + "b"],
+              M.Literal("x", langtag="en"), M.Literal("deux", langtag="fr-CA"),
+              M.Literal("abc", EX["MyType"]), M.Literal("05", ZZ["T"]), M.Literal("x", M.XSD_QNAME),
+              M.Literal("7", M.XSD["int"]), M.Literal("TRUE", M.XSD["boolean"]), M.Literal("u", M.XSD["anyURI"])]
+    cases, reqs = [], []
+    for a in names:
+        for v in values:
+            d = M.ProvDocument()
+            d.add_namespace(EX); d.add_namespace(ZZ)
+            try:
+                e = d.entity(EX["e0"], [(a, v)])
+            except Exception:
+                continue
+            stored = [x for n, x in e.attributes]
+            if len(stored) != 1:
+                continue
+            stored = stored[0]
+            try:
+                text = d.serialize(format="rdf")
+                g = ConjunctiveGraph()
+                g.parse(data=text, format="trig")
+                trip = [(p_, o_) for s_, p_, o_ in g.triples((URIRef(EXU + "e0"), None, None))
+                        if not (str(p_).endswith("#type") and str(o_) == M.PROV["Entity"].uri)]
+                nss = [[p_, str(u_)] for p_, u_ in g.namespaces()]
+                d2 = M.ProvDocument.deserialize(content=text, format="rdf")
+                back = [(n.uri, I.sx_value(x)) for r in d2.get_records() for n, x in r.attributes]
+                err = None
+            except Exception as ex_:
+                trip, nss, back, err = [], [], [], type(ex_).__name__ + ": " + str(ex_)[:200]
+            claimed = not isinstance(stored, float) and not (isinstance(stored, M.Literal) and not stored.langtag)
+            direct = [[a.uri, I.sx_value(stored)]] if claimed else None
+            cases.append((a.uri, repr(v)[:80], trip, back, err, direct, d.get_provn()))
+            reqs.append(dumps(["rdfattr", nss, I.sx_qn(a), I.sx_value(stored)]))
+    outs = [loads(x) for x in common.run_model_batch(reqs)]
+    bad = []
+    stats = Counter()
+
+    def term(o_):
+        if isinstance(o_, Literal):
+            return ["lit", str(o_), ["some", str(o_.datatype)] if o_.datatype is not None else "none",
+                    ["some", o_.language] if o_.language is not None else "none"]
+        return ["uri", str(o_)]
+
+    def strip_ns(x):
+        """a qualified name by its URI only (which namespace object names it is the manager's choice)"""
+        if isinstance(x, list) and len(x) == 4 and x[0] == "qn":
+            return ["qn-uri", x[2] + x[3]]
+        if isinstance(x, list):
+            return [strip_ns(y) for y in x]
+        return x
+    fails = []
+    for (a, v, trip, back, err, direct, provn), out in zip(cases, outs):
+        # the direct oracle on the same cases: a value of the claimed kinds comes back, under the same attribute URI
+        if direct is not None:
+            if err is not None:
+                fails.append({"what": "RDF round trip of one attribute raised", "attribute": a, "value": v, "exc": err, "provn": provn})
+            elif [[n, strip_ns(x)] for n, x in back] != [[direct[0][0], strip_ns(direct[0][1])]]:
+                fails.append({"what": "RDF round trip of one attribute does not give the attribute back", "attribute": a, "value": v,
+                              "written": [direct[0][0], strip_ns(direct[0][1])], "read": [[n, strip_ns(x)] for n, x in back], "provn": provn})
+        if out == "ood":
+            stats["outside the model"] += 1
+            continue
+        if not isinstance(out, list) or len(out) != 3:
+            bad.append({"attribute": a, "value": v, "model": str(out)[:200]})
+            continue
+        mpred, mterm, mback = out
+        if err is not None:
+            if isinstance(mback, list) and mback[0] == "raise":
+                stats["both raise"] += 1
+            elif mback == "ood":
+                stats["outside the model"] += 1
+            else:
+                bad.append({"attribute": a, "value": v, "implementation_error": err, "model": str(mback)[:200]})
+            continue
+        if len(trip) != 1:
+            bad.append({"attribute": a, "value": v, "what": "the implementation wrote %d triples for one value" % len(trip)})
+            continue
+        if str(trip[0][0]) != mpred or term(trip[0][1]) != mterm:
+            bad.append({"attribute": a, "value": v, "what": "the triple written differs",
+                        "model": [mpred, mterm], "implementation": [str(trip[0][0]), term(trip[0][1])]})
+            continue
+        if mback == "ood":
+            stats["reading outside the model"] += 1
+            continue
+        want = [[mback[1][2] + mback[1][3], strip_ns(mback[2])]] if mback[0] == "ok" else []
+        got = [[n, strip_ns(x)] for n, x in back]
+        if want != got:
+            bad.append({"attribute": a, "value": v, "what": "the attribute read back differs", "model": want, "implementation": got})
+            continue
+        stats["agree"] += 1
+    return len(cases), bad, dict(stats), fails
+
+
 def custom_name_finding():
     """C07-F1 witness: a custom attribute whose URI contains 'activity' on a communication"""
     import prov.model as M
@@ -347,6 +467,34 @@ def alternate_finding():
     d.new_record(M.PROV_ALTERNATE, EX["alt1"], {M.PROV_ATTR_ALTERNATE1: EX["e1"], M.PROV_ATTR_ALTERNATE2: EX["e2"]}, {EX["k"]: "v"})
     d2 = M.ProvDocument.deserialize(content=d.serialize(format="rdf"), format="rdf")
     return lc_doc(d2) != lc_doc(d.unified())
+
+
+def scheme_prefix_docs():
+    """C07-F3 family: a namespace declared under a prefix that is also the scheme of a URI in use"""
+    import prov.model as M
+    for prefix, uri, other in (("http", "http://www.w3.org/2011/http#", "http://example.org/"),
+                               ("https", "http://example.org/tls#", "https://example.org/"),
+                               ("urn", "http://example.org/urn#", "urn:uuid:")):
+        d = M.ProvDocument()
+        ex = d.add_namespace("ex", other)
+        ns = d.add_namespace(prefix, uri)
+        d.entity(ex["e"], [(ex["k"], ex["v"]), (ns["method"], "GET")])
+        d.activity(ex["a"])
+        d.wasGeneratedBy(ex["e"], ex["a"])
+        yield ("prefix %s next to %s" % (prefix, other), d)
+
+
+def scheme_prefix_finding():
+    """C07-F3 witness: the documents of the family do not come back"""
+    import prov.model as M
+    bad = 0
+    for _, d in scheme_prefix_docs():
+        try:
+            d2 = M.ProvDocument.deserialize(content=d.serialize(format="rdf"), format="rdf")
+            bad += lc_doc(d2) != lc_doc(d.unified())
+        except Exception:
+            bad += 1
+    return bad > 0
 
 
 def run(tier, seed, log, model_runs=True, enlarged=False):
@@ -417,9 +565,20 @@ def run(tier, seed, log, model_runs=True, enlarged=False):
             disagreements.append({"first_difference": json.dumps(b)[:1200],
                                   "theorem": "correspondence Rdfq.enc_all / dec ~ provrdf encode_container / decode_container "
                                              "(theorems rdfq_single_roundtrip, rdfq_pair_roundtrip are stated over the model)"})
+        t3 = time.time()
+        nval, bad3, vstats, vfails = value_correspondence()
+        for f in vfails[:3]:
+            violations.append({"kind": "failing-input", "failure": {k: f[k] for k in f if k != "provn"}, "provn": f["provn"][:2500]})
+        npred += nval
+        log("value correspondence: %d attribute x value cases, %d disagreements in %.1fs (%s)" % (nval, len(bad3), time.time() - t3, vstats))
+        for b in bad3[:2]:
+            disagreements.append({"first_difference": json.dumps(b, ensure_ascii=False)[:1200],
+                                  "theorem": "correspondence RdfVal.rdf_encode / enc_elem_pred / rdf_attr_back ~ provrdf "
+                                             "encode_rdf_representation / encode_container / decode_rdf_representation / decode_container "
+                                             "(theorems C07_value_*, C07_attribute_roundtrip are stated over the model)"})
     known = common.load_known_findings()
     known_lines = []
-    witnesses = {"C07-F1": custom_name_finding, "C07-F2": alternate_finding}
+    witnesses = {"C07-F1": custom_name_finding, "C07-F2": alternate_finding, "C07-F3": scheme_prefix_finding}
     for k in known:
         if k["property"] == PROP and k["status"] == "open" and k["id"] in witnesses:
             try:
